@@ -392,8 +392,17 @@ func handleSMOVE(params internal.HandlerFuncParams) ([]byte, error) {
 		return nil, errors.New("source is not a set")
 	}
 
-	destinationSet, ok := sets[destination].(*Set)
-	if !ok {
+	var destinationSet *Set
+	if !keyExists[destination] {
+		// A destination that does not exist is an empty set; it is created when there is a member to move.
+		if !sourceSet.Contains(member) {
+			return []byte(":0\r\n"), nil
+		}
+		destinationSet = NewSet([]string{})
+		if err = params.SetValues(params.Context, map[string]interface{}{destination: destinationSet}); err != nil {
+			return nil, err
+		}
+	} else if destinationSet, ok = sets[destination].(*Set); !ok {
 		return nil, errors.New("destination is not a set")
 	}
 
